@@ -36,23 +36,25 @@ def family_ctx(ctx: Ctx, name: str) -> Family:
 
 
 def explore(ctx: Ctx, fam: Family, thorough: bool):
-    """Yield (config, state after read_device_info, runtime outcome) over the whole space."""
+    """Yield (config, state, runtime outcome) over the whole reachable space: the states after read_device_info and,
+    transitively, every state a (successful or failed) read_runtime_data call leaves behind."""
+    from .c15 import project
     st0 = fam.initial_state()
+    seen = set()
     for cfg in fam.configurations(thorough):
-        infos = {}
+        work = []
         for oc in fam.replay("read_device_info", st0, cfg):
             if oc.end != "raise":
-                infos[oc.state.key()] = oc.state
-        for sk, st in infos.items():
-            if not hasattr(fam, "_c14_seen"):
-                fam._c14_seen = set()
-            from .c15 import project
-            pk = (project(fam, st), thorough)
-            if pk in fam._c14_seen and not thorough:
+                work.append(oc.state)
+        while work:
+            st = work.pop()
+            pk = project(fam, st) if not thorough else (cfg.label, cfg.rated_power, project(fam, st))
+            if pk in seen:
                 continue        # read_runtime_data depends on the flags and tables only
-            fam._c14_seen.add(pk)
+            seen.add(pk)
             for oc in fam.replay("read_runtime_data", st, cfg):
                 yield cfg, st, oc
+                work.append(oc.state)      # also after a failed call: the next poll starts from there
 
 
 def check(ctx: Ctx, rep: Report, thorough: bool = False):
